@@ -250,7 +250,10 @@ def gen_metric_lazy_case(rng, tier):
         if rng.random() < 0.7:
             kw["to"] = to
         if opname in STENCIL_OPS + ["cumsum"]:
-            kw["metric_weighted"] = rng.choice([{a: [a] for a in op_axes}, {a: [a] for a in op_axes}, [op_axes[0]]])
+            kw["metric_weighted"] = rng.choice([{a: [a] for a in op_axes}, {a: [a] for a in op_axes}, [op_axes[0]],
+                                                # weighted along the first axis only: later axes run unweighted on an
+                                                # array that the first axis' metric has made dask-backed
+                                                {a: ([a] if i == 0 else None) for i, a in enumerate(op_axes)}])
         if rng.random() < 0.4:
             kw["boundary"] = rng.choice(words)
         if opname == "derivative":
@@ -263,6 +266,15 @@ def gen_metric_lazy_case(rng, tier):
     spec["chunks"] = gen_chunks(rng, inp["dims"], sizes)
     alld = sorted({d for v in gs["vars"].values() for d in v["dims"]})
     spec["lazy_ds"] = gen_chunks(rng, alld, sizes)
+    if (opname in METRIC_OPS + ["integrate", "average"] or "metric_weighted" in kw) and rng.random() < 0.3:
+        # the caller's data are in memory, only the grid dataset (the metrics) is lazy: the array becomes dask-backed
+        # half-way through the call, when it is first multiplied or divided by a metric
+        spec["data_in_memory"] = True
+        spec["chunks"] = {}
+    if rng.random() < 0.5:
+        # only some variables of the grid dataset are lazy (a dataset assembled from several sources)
+        names_ = sorted(gs["vars"])
+        spec["lazy_vars"] = [v for v in names_ if rng.random() < 0.5] or [rng.choice(names_)]
     return spec
 
 
@@ -1060,6 +1072,8 @@ def _run_case(spec, cnt=None):
         # ---- lazy inputs
         chunks = {d: tuple(c) for d, c in (spec.get("chunks") or {}).items()}
         lda = da.chunk(chunks) if chunks is not None else da.chunk()
+        if spec.get("data_in_memory"):
+            lda = da
         lda_p = lda if da_p is da else da_p.chunk(chunks)
         lda2 = None
         if da2 is not None:
@@ -1072,6 +1086,10 @@ def _run_case(spec, cnt=None):
         if spec.get("lazy_ds"):
             cnt.c["lazy_ds_cases"] += 1
             lds = ds.chunk({d: tuple(c) for d, c in spec["lazy_ds"].items() if d in ds.dims})
+            if spec.get("lazy_vars") is not None:
+                for vn in gs.get("vars", {}):
+                    if vn not in spec["lazy_vars"] and vn in ds.variables:
+                        lds = lds.assign_coords({vn: ds[vn]}) if vn in ds.coords else lds.assign({vn: ds[vn]})
             lgrid = worlds.build_grid(lds, gs)
         exempt = exempt_condition(spec)
         # ---- build under the monitor
@@ -1122,7 +1140,9 @@ def _run_case(spec, cnt=None):
                      "schedule": None}, info)
         if exempt:
             cnt.c["exempt_answered"] += 1
-        if not all(is_lazy(r) for r in lazy):
+        # (in-memory data on a partially lazy grid dataset: whether anything lazy takes part depends on which metric
+        # the call picks, so laziness of the result is not required there)
+        if not all(is_lazy(r) for r in lazy) and not (spec.get("data_in_memory") and spec.get("lazy_vars") is not None):
             return ({"fingerprint": f"C06/V2-not-lazy/{op['name']}/{feat}",
                      "detail": "result of an operation on dask-backed input is not dask-backed",
                      "schedule": None}, info)
